@@ -410,8 +410,13 @@ def _toposort(dsk, keys=None, returncycle=False, dependencies=None):
                         priorities = {}
                         prev = nodes[-1]
                         # Give priority to nodes that were seen earlier.
+                        # A node may sit on the stack more than once; only its topmost
+                        # entry counts, otherwise priorities collide and the greedy walk
+                        # below may never terminate.
                         while nodes[-1] != nxt:
-                            priorities[nodes.pop()] = -len(priorities)
+                            node = nodes.pop()
+                            if node not in priorities:
+                                priorities[node] = -len(priorities)
                         priorities[nxt] = -len(priorities)
                         # We're going to get the cycle by walking backwards along dependents,
                         # so calculate dependents only for the nodes in play.
